@@ -351,7 +351,7 @@ func c17BVRoots(r *lib.Result) (roots []string, cleanup func()) {
 				continue
 			}
 		}
-		d, err := os.MkdirTemp(parent, "vh-c17bv-")
+		d, err := lib.MkScratchIn(parent, "vh-c17bv-")
 		if err != nil {
 			if parent == "" {
 				r.Fail(lib.Failure{Kind: "tie", Key: "tmpdir", What: err.Error()})
